@@ -86,7 +86,7 @@ try:
         rc, out = sh("/verif/tools/baseline.sh %s" % wt, timeout=3600)
         res["existing_suite"] = ("pass" if rc == 0 else "FAIL") + " (full baseline, %.0fs) " % (time.time() - t0) + out[-300:].replace("\n", " | ")
     else:
-        rc, out = sh("go test -count=1 -vet=off %s" % " ".join(pkgs), cwd=wt, timeout=1800)
+        rc, out = sh("go test -count=1 -vet=off -skip 'TestClientConfigRepository_MillionConfigs|TestPortMappingRepository_LargeScale|TestBuiltInCloudControl_AuthenticationWithJWT|TestManager_ContextCancellation' %s" % " ".join(pkgs), cwd=wt, timeout=1800)
         res["existing_tests_touched_pkgs"] = ("pass" if rc == 0 else "FAIL " + out[-400:]) + " :: " + " ".join(pkgs)
     # the check
     t0 = time.time()
